@@ -9,6 +9,7 @@ import (
 	"runtime"
 	"sort"
 	"strings"
+	"sync"
 	"time"
 
 	"github.com/anishathalye/porcupine"
@@ -305,20 +306,39 @@ func (r *run) body(evs []Ev) {
 	var client orda.Client
 	typ := kindType(r.cfg.Kind)
 	setupErr := ""
+	// (what the set-up task produces is handed over under a mutex: the race detector does not see the
+	// scheduler's hand-over, and set-up really is over before anything else starts)
+	var su struct {
+		sync.Mutex
+		client orda.Client
+		pub    orda.Datatype
+		err    string
+	}
 	r.s.spawn("setup", func() {
-		client = orda.NewClient(&orda.ClientConfig{ServerAddr: "sim", NotificationAddr: "sim", CollectionName: "c", SyncType: st}, "shared")
-		if err := client.Connect(); err != nil {
-			setupErr = "connect: " + err.Error()
-			return
+		c := orda.NewClient(&orda.ClientConfig{ServerAddr: "sim", NotificationAddr: "sim", CollectionName: "c", SyncType: st}, "shared")
+		e := ""
+		var pub orda.Datatype
+		if err := c.Connect(); err != nil {
+			e = "connect: " + err.Error()
+		} else {
+			pub = c.CreateDatatype("k", typ, nil)
+			if err := c.Sync(); err != nil { // creates the datatype on the model server
+				e = "first sync: " + err.Error()
+			}
 		}
-		r.pub = client.CreateDatatype("k", typ, nil)
-		r.shared = r.pub.(iface.Datatype)
-		if err := client.Sync(); err != nil { // creates the datatype on the model server
-			setupErr = "first sync: " + err.Error()
-		}
+		su.Lock()
+		su.client, su.pub, su.err = c, pub, e
+		su.Unlock()
 	})
 	r.s.run()
-	if setupErr != "" || r.s.dead || r.s.over || client == nil {
+	su.Lock()
+	client, setupErr = su.client, su.err
+	if su.pub != nil {
+		r.pub = su.pub
+		r.shared = su.pub.(iface.Datatype)
+	}
+	su.Unlock()
+	if setupErr != "" || r.s.dead || r.s.over || client == nil || r.pub == nil {
 		panic("engine C set-up failed: " + setupErr)
 	}
 	defer func() {
